@@ -546,6 +546,77 @@ func runEngineH(p *Prog, o *obls) {
 				o.ok("H2", key, p.instrPos(stores[0]), fmt.Sprintf("%d consumer call(s) (pacer / change callback) receive the stored value itself", told))
 			}
 		}
+		// the change callback is told the published value wherever it is called: in a function that does not store
+		// the field itself (the store was moved into a helper), the argument is a load of the field, or a parameter
+		// that every caller fills with the value it stored
+		for _, fn := range p.Funcs {
+			if isOptionClosure(fn) {
+				continue
+			}
+			hasStore := false
+			instrsOf(fn, func(in ssa.Instruction) {
+				if st, ok := in.(*ssa.Store); ok {
+					if fa, ok := st.Addr.(*ssa.FieldAddr); ok && fieldKeyAddr(fa) == ps.field {
+						hasStore = true
+					}
+				}
+			})
+			if hasStore {
+				continue
+			}
+			instrsOf(fn, func(in ssa.Instruction) {
+				ci, ok := in.(ssa.CallInstruction)
+				if !ok {
+					return
+				}
+				cc := ci.Common()
+				if cc.IsInvoke() || len(cc.Args) == 0 {
+					return
+				}
+				isCb := false
+				for _, cb := range ps.callbacks {
+					if loadOfField(p, cc.Value, cb) {
+						isCb = true
+					}
+				}
+				if !isCb {
+					return
+				}
+				key := funcKey(fn) + ":told-elsewhere"
+				arg := cc.Args[0]
+				if loadOfField(p, arg, ps.field) {
+					o.ok("H2", key, p.instrPos(in), "the change callback is given a load of the published field")
+					return
+				}
+				if par, ok := p.origin(arg).(*ssa.Parameter); ok {
+					args, sites, closed := p.argsForParam(par)
+					good := closed && len(args) > 0
+					for i, a := range args {
+						if loadOfField(p, a, ps.field) {
+							continue
+						}
+						same := false
+						if caller := sites[i].Parent(); caller != nil {
+							instrsOf(caller, func(in2 ssa.Instruction) {
+								if st, ok := in2.(*ssa.Store); ok {
+									if fa, ok := st.Addr.(*ssa.FieldAddr); ok && fieldKeyAddr(fa) == ps.field && p.origin(st.Val) == p.origin(a) {
+										same = true
+									}
+								}
+							})
+						}
+						if !same {
+							good = false
+						}
+					}
+					if good {
+						o.ok("H2", key, p.instrPos(in), "the change callback is given a parameter that every caller fills with the value it stored")
+						return
+					}
+				}
+				o.bad("H2", key, p.instrPos(in), fmt.Sprintf("the change callback is given %s in a function that does not store %s: the value was published by a helper (which may have clamped it) and this is not a load of the published field", valueString(arg), ps.field))
+			})
+		}
 		// getter returns the field
 		g := p.FuncByKey(ps.getter)
 		if g == nil {
